@@ -78,6 +78,8 @@ fn check_enum(rep: &mut Report, name: &str, base: &str, family: &[&str], c: &str
         let r = with_enum!(name, E => pwv::<E>(c, letter, base));
         let in_family = family.contains(&l);
         rep.case(&format!("pwv {name} {l} {c}"), true);
+        // the enum dispatch against the model built from the regenerated enum declarations and the field models
+        rep.model(format!("epw {name} {} {}", if l.is_empty() { "-" } else { l }, h(c)), match &r { Err(()) => "panic".to_string(), Ok(None) => "err".to_string(), Ok(Some((_, _, ser))) => format!("ok {}", h(ser)) });
         match r {
             Err(()) => rep.fail(&format!("panic|{name}|parse_with_variant"), wit("panic", json!(l))),
             Ok(None) => {}
